@@ -765,28 +765,37 @@ class CountControlConstructionToken(CompositeBaseToken):
          BracketFinishToken]
     ]
 
+    @staticmethod
+    def _single_operand(expression: ExpressionToken):
+        """
+        The regexp token of an argument that consists of exactly one operand, None for any other expression
+        """
+        return expression.value[0].value[0] if len(expression.value) == 1 and isinstance(
+            expression.value[0], OperandToken) else None
+
     @property
     def matrices(self) -> list[MatrixOfCellIdentifiersToken]:
         return [
-            expression.left_operand.matrix
+            self._single_operand(expression)
             for expression in self.value[2].expressions
-            if hasattr(expression.left_operand, 'matrix') and expression.left_operand.matrix is not None
+            if isinstance(self._single_operand(expression), MatrixOfCellIdentifiersToken)
         ]
 
     @property
     def arg_cells(self) -> list[CellIdentifierToken]:
         return [
-            expression.left_operand.value[0]
+            self._single_operand(expression)
             for expression in self.value[2].expressions
-            if isinstance(expression.left_operand.value[0], CellIdentifierToken)
+            if isinstance(self._single_operand(expression), CellIdentifierToken)
         ]
 
     @property
     def expressions(self):
+        # everything that is not a bare area or a bare cell is an ordinary expression argument
         return [
             expression
             for expression in self.value[2].expressions
-            if isinstance(expression.left_operand.value[0], LiteralToken)
+            if not isinstance(self._single_operand(expression), (MatrixOfCellIdentifiersToken, CellIdentifierToken))
         ]
 
 
